@@ -85,7 +85,7 @@ def _worker(ws, tier):
     from ..specs import cable
     from ..sym import Ctx, Proxy, Runtime, Sym
     out = {"results": [], "error": "", "reached": {}, "n": 0}
-    tmo = 30000 if tier == "quick" else 120000
+    tmo = 30000 if tier == "quick" else (5000 if tier == "canary" else 120000)
     try:
         for w in ws:
             tag = "edges=" + ".".join(f"{p}>{q}{t}" for p, q, t in w)
@@ -162,6 +162,8 @@ def _worker(ws, tier):
                 out["results"].append(res)
             else:
                 out["results"].append(_res(f"zero conductance:all synaptic membrane terms vanish[{tag}]", True, backend="structural"))
+            if tier == "canary" and any(r_["status"] == "refuted" for r_ in out["results"]):
+                return out
             # the solver received the voltages of the module, nothing else touched v before the solve
             out["results"].append(_res(f"Module.step:solver receives the current voltages[{tag}]", all(kw["voltages"][i].e.eq(v[i].e) for i in range(N)), backend="structural"))
     except Exception as e:
@@ -227,7 +229,7 @@ def main(tier):
     W = wirings(tier)
     k = 6
     chunks = [(W[i:i + k], tier, None) for i in range(0, len(W), k)]
-    outs = run_units("jxverif.props.C09", "worker", chunks + [(CANARY_W, "quick", c) for c in CANARIES] + [("bounded", tier, None)])
+    outs = run_units("jxverif.props.C09", "worker", chunks + [(CANARY_W, "canary", c) for c in CANARIES] + [("bounded", tier, None)])
     outs_b = outs[-1:]
     outs = outs[:-1]
     nw = 0
